@@ -102,21 +102,85 @@ def rowsFrom : Nat → Nat → MT → List (List Rat) × MT
 def poissonTestSeeded (rates : List Rat) (obs : List Nat) (nsim s : Nat) : Option (List (List Nat)) :=
   Sampler.poissonTestInjected rates obs (rowsFrom nsim obs.sum (seed s)).1
 
-/-- the L-test with `seed=s` for a forecast mean below 10: per simulation first the Poisson draw, then `rand(draw)`.
-    Returns the simulated arrays (each with ITS number of events); `none` = exception / fuel. -/
-def lTestLoop (ws : List Rat) (enlam : Rat) : Nat → MT → Option (List (Nat × List Nat))
+/-- the simulation loop of the L-test for ANY sampler of the number of events (`draw`: the state in, the number and the
+    state out; `none` = the sampler did not return): per simulation first the number, then `rand(number)` placed by
+    `_simulate_catalog`. Returns the simulated arrays (each with ITS number of events); `none` = exception / no number. -/
+def lTestLoopWith (ws : List Rat) (draw : MT → Option (Nat × MT)) : Nat → MT → Option (List (Nat × List Nat))
   | 0, _ => some []
   | k + 1, st =>
-    match poissonMult enlam 4096 1 0 st with
+    match draw st with
     | none => none
     | some (n, st) =>
       let (row, st) := rand n st
       match Sampler.simulate ws row with
       | none => none
-      | some arr => if Sampler.countAssert arr n then (lTestLoop ws enlam k st).map ((n, arr) :: ·) else none
+      | some arr => if Sampler.countAssert arr n then (lTestLoopWith ws draw k st).map ((n, arr) :: ·) else none
+
+/-- the L-test with `seed=s` for a forecast mean below 10 (multiplication method, `exp(-mean)` supplied) -/
+def lTestLoop (ws : List Rat) (enlam : Rat) : Nat → MT → Option (List (Nat × List Nat)) :=
+  lTestLoopWith ws (poissonMult enlam 4096 1 0)
 
 def lTestSeeded (rates : List Rat) (enlam : Rat) (nsim s : Nat) : Option (List (Nat × List Nat)) :=
   lTestLoop (Sampler.weights rates) enlam nsim (seed s)
+
+/-! ### `random_poisson_ptrs(lam)` for `lam ≥ 10` (numpy/random/src/distributions/distributions.c; Hörmann's transformed
+rejection with squeeze). Transcendental float operations (`sqrt`, `log`) are Lean's `Float` = the C library's, like numpy's:
+this part of the model is EXECUTABLE ONLY (no theorem looks inside it) and is validated against numpy on every run. -/
+
+/-- the uniform double as a `Float` (exact: 53 significant bits) -/
+def toFloat (r : Rat) : Float := Float.ofInt r.num / Float.ofNat r.den
+
+/-- `random_loggam(x)`: numpy's own log-gamma (asymptotic series after shifting x up to ≥ 7) -/
+def loggam (x : Float) : Float :=
+  if x == 1.0 || x == 2.0 then 0.0 else
+    let n : Nat := if x < 7.0 then (7.0 - x).floor.toUInt64.toNat else 0
+    let x0 := x + Float.ofNat n
+    let x2 := (1.0 / x0) * (1.0 / x0)
+    let a : List Float := [8.333333333333333e-02, -2.777777777777778e-03, 7.936507936507937e-04, -5.952380952380952e-04,
+      8.417508417508418e-04, -1.917526917526918e-03, 6.410256410256410e-03, -2.955065359477124e-02, 1.796443723688307e-01,
+      -1.39243221690590e+00]
+    let gl0 := (a.take 9).reverse.foldl (fun g ak => g * x2 + ak) (a.getD 9 0.0)
+    let gl := gl0 / x0 + 0.5 * 1.8378770664093453e+00 + (x0 - 0.5) * Float.log x0 - x0
+    if x < 7.0 then
+      ((List.range n).foldl (fun (p : Float × Float) _ => (p.1 - Float.log (p.2 - 1.0), p.2 - 1.0)) (gl, x0)).1
+    else gl
+
+def ptrsLoop (lam slam loglam a b invalpha vr : Float) : Nat → MT → Option (Nat × MT)
+  | 0, _ => none
+  | fuel + 1, st =>
+    let (u0, st) := nextDouble st
+    let (v0, st) := nextDouble st
+    let U := toFloat u0 - 0.5
+    let V := toFloat v0
+    let us := 0.5 - U.abs
+    let kf := ((2.0 * a / us + b) * U + lam + 0.43).floor
+    if us >= 0.07 && V <= vr then some (kf.toUInt64.toNat, st)
+    else if kf < 0.0 || (us < 0.013 && V > us) then ptrsLoop lam slam loglam a b invalpha vr fuel st
+    else if Float.log V + Float.log invalpha - Float.log (a / (us * us) + b) <= -lam + kf * loglam - loggam (kf + 1.0)
+      then some (kf.toUInt64.toNat, st)
+    else ptrsLoop lam slam loglam a b invalpha vr fuel st
+
+/-- `numpy.random.poisson(lam)` of the legacy generator: multiplication method below 10 (`exp(-lam)` in Float), PTRS from 10 on -/
+def poissonFloat (lam : Float) (st : MT) : Option (Nat × MT) :=
+  if lam >= 10.0 then
+    let slam := Float.sqrt lam
+    let b := 0.931 + 2.53 * slam
+    let a := -0.059 + 0.02483 * b
+    ptrsLoop lam slam (Float.log lam) a b (1.1239 + 1.1328 / (b - 3.4)) (0.9277 - 3.6224 / (b - 2.0)) 4096 st
+  else if lam == 0.0 then some (0, st)
+  else
+    let enlam := Float.exp (-lam)
+    let rec go : Nat → Float → Nat → MT → Option (Nat × MT)
+      | 0, _, _, _ => none
+      | fuel + 1, prod, x, st =>
+        let (u0, st) := nextDouble st
+        let prod := prod * toFloat u0
+        if prod > enlam then go fuel prod (x + 1) st else some (x, st)
+    go 4096 1.0 0 st
+
+/-- the seeded L-test for ANY forecast mean (Float sampler of the number of events; placement exact as before) -/
+def lTestSeededF (rates : List Rat) (lam : Float) (nsim s : Nat) : Option (List (Nat × List Nat)) :=
+  lTestLoopWith (Sampler.weights rates) (poissonFloat lam) nsim (seed s)
 
 /-- binary / Brier tests with `seed=s`: the rejection loops consume `uniform(0,1)` one number per iteration;
     `fuel` numbers are made available (the loop has no bound in the code: D10) -/
